@@ -135,10 +135,20 @@ Definition run_doc (d : doc) : sx :=
     group "enc" (per (dict_ids m) (fun x => oid_to_sx (fst x)) (fun x => Some (s_enc (get_font_encoding m (snd x)))));
     group "text" (Some (SL []))].
 
+(* (big KIND N STACK_KIB): a document of N + 4 objects that the harness builds itself (seeded defect C13/p1: nesting of First
+   links on a document whose reference budget exceeds the stack).  The object map of the model is an association list and
+   every query is asked for every id: nothing is computed here, the answer says so and props/c13.py never compares it
+   with the implementation's (the case is decided by the direct verdict alone). *)
 Definition run (x : sx) : sx :=
-  match (match x with SL (_ :: dx :: _) => doc_of_sx dx | _ => None end) with
-  | None => sx_id "badcase"
-  | Some d => run_doc d
+  match x with
+  | SL (tag :: _ :: _) =>
+    if is_id tag "big" then sx_id "model-skipped"
+    else
+      match (match x with SL (_ :: dx :: _) => doc_of_sx dx | _ => None end) with
+      | None => sx_id "badcase"
+      | Some d => run_doc d
+      end
+  | _ => sx_id "badcase"
   end.
 
 Definition run_line : bytes -> bytes := run_line_with run.
